@@ -991,3 +991,124 @@ def disp9(ctx) -> List[Ob]:
         else:
             out.append(bad("DISP-9", mk.qualname, key, ctx.where(mk), f"extract_region maintains the pointer '{attr}' {what[kind]} but the reader never sets it: a graph that was read has stale / string pointers there"))
     return out
+
+
+@rule("DISP-10", 12, "every render path draws: each dispatch arm calls its handler with (digraph, name, block) in order, each handler draws exactly one node (or a cluster that recurses), each renderer has its own fresh Digraph and renders every block and then the edges")
+def disp10(ctx) -> List[Ob]:
+    out: List[Ob] = []
+    prog = ctx.prog
+    base = prog.cls("BaseRenderer")
+    rb = base.find_method("render_block")
+    if rb is None:
+        raise AnalysisError("BaseRenderer.render_block not found")
+    rparams = [p.arg for p in rb.params if p.arg != "self"]
+    chains = find_class_chains(rb.node, rparams[-1])
+    if not chains:
+        raise AnalysisError("render_block: no class dispatch")
+    subj, arms = chains[0]
+    # (a) arms
+    for arm in arms:
+        if arm.test is None:
+            continue
+        key = "arm " + A.alpha_key(arm.test)[:70]
+        where = ctx.where(rb, arm.node)
+        calls = [c for c in A.walk_no_nested(ast.Module(arm.body, [])) if isinstance(c, ast.Call) and isinstance(c.func, ast.Attribute) and isinstance(c.func.value, ast.Name) and c.func.value.id == "self" and c.func.attr.startswith("render_")]
+        if len(calls) != 1:
+            out.append(bad("DISP-10", rb.qualname, key, where, f"the arm calls {len(calls)} render handlers: the block is not drawn (or drawn twice)"))
+            continue
+        args = [A.unparse(a) for a in calls[0].args]
+        if args != rparams:
+            out.append(bad("DISP-10", rb.qualname, key, where, f"handler called with ({', '.join(args)}), expected ({', '.join(rparams)})"))
+        else:
+            out.append(ok("DISP-10", rb.qualname, key, where, f"{calls[0].func.attr}({', '.join(args)})", nontrivial=False))
+    # (b) handlers
+    for r in prog.subclasses(base, strict=True):
+        for mname, h in sorted(r.methods.items()):
+            if not mname.startswith("render_") or mname in ("render_block", "render_edges", "render_byteflow", "render_scfg"):
+                continue
+            cfg = ctx.cfg(h)
+            hp = [p.arg for p in h.params if p.arg != "self"]
+            key = f"{r.name}.{mname} draws"
+            where = ctx.where(h)
+            if "region" in mname:
+                withs = [w for w in A.walk_no_nested(h.node) if isinstance(w, ast.With) and any(isinstance(i.context_expr, ast.Call) and isinstance(i.context_expr.func, ast.Attribute) and i.context_expr.func.attr == "subgraph" for i in w.items)]
+                rec = [c for c in method_calls(h.node, rb.name)]
+                okc = withs and rec and any(any(a is withs[0] for a in A.ancestors(c)) for c in rec)
+                cluster_named = withs and any("cluster_" in A.unparse(i.context_expr) for i in withs[0].items)
+                if okc and cluster_named:
+                    sub = withs[0].items[0].optional_vars
+                    subn = A.unparse(sub) if sub is not None else "?"
+                    if all(A.unparse(c.args[0]) == subn for c in rec if c.args):
+                        out.append(ok("DISP-10", h.qualname, key, where, f"cluster_<name> sub-graph; members rendered into it through {rb.name}"))
+                    else:
+                        out.append(bad("DISP-10", h.qualname, key, where, "the members of a region are not rendered into the region's own cluster"))
+                else:
+                    out.append(bad("DISP-10", h.qualname, key, where, "a region is not drawn as a 'cluster_' sub-graph whose members are rendered recursively"))
+                continue
+            nodes = [c for c in A.walk_no_nested(h.node) if isinstance(c, ast.Call) and isinstance(c.func, ast.Attribute) and c.func.attr == "node" and hp and A.unparse(c.func.value) == hp[0]]
+            if len(nodes) != 1:
+                out.append(bad("DISP-10", h.qualname, key, where, f"{len(nodes)} calls of {hp[0] if hp else 'digraph'}.node(...): a block must be drawn as exactly one node"))
+                continue
+            n = cfg.node_of(nodes[0])
+            first_arg = A.unparse(nodes[0].args[0]) if nodes[0].args else ""
+            lab = kw(nodes[0], "label")
+            probs = []
+            if cfg.exit in cfg.reachable(cfg.entry, avoid=lambda z: z is n):
+                probs.append("there is a path through the handler that draws no node")
+            if hp[1] not in first_arg:
+                probs.append(f"the node is not named after the block ({first_arg})")
+            if lab is None:
+                probs.append("the node has no label")
+            if probs:
+                out.append(bad("DISP-10", h.qualname, key, where, "; ".join(probs)))
+            else:
+                out.append(ok("DISP-10", h.qualname, key, where, f"exactly one {hp[0]}.node({first_arg}, label=...) on every normal path"))
+    # (c) entry points
+    for cname, mname in (("SCFGRenderer", "__init__"), ("ByteFlowRenderer", "render_byteflow")):
+        c = prog.cls(cname)
+        m = c.methods.get(mname)
+        if m is None:
+            raise AnalysisError(f"{cname}.{mname} not found")
+        cfg = ctx.cfg(m)
+        key = f"{cname}: every block, then the edges"
+        where = ctx.where(m)
+        def _graph_items(lp):
+            it = lp.iter
+            if not (isinstance(it, ast.Call) and isinstance(it.func, ast.Attribute) and it.func.attr == "items" and not it.args):
+                return False
+            recv = it.func.value
+            if isinstance(recv, ast.Name):
+                ds = [d for d in cfg.reaching_defs(recv) if d.stmt is not None]
+                if len(ds) == 1 and isinstance(ds[0].stmt, ast.Assign):
+                    recv = ds[0].stmt.value
+            return isinstance(recv, ast.Attribute) and recv.attr == "graph"
+
+        loops = [lp for lp in A.walk_no_nested(m.node) if isinstance(lp, ast.For) and _graph_items(lp)]
+        good = False
+        if loops:
+            lp = loops[0]
+            tv = [A.unparse(e) for e in lp.target.elts] if isinstance(lp.target, ast.Tuple) else []
+            rcs = [x for x in method_calls(lp, rb.name) if [A.unparse(a) for a in x.args] == ["self.g"] + tv]
+            edges = [x for x in method_calls(m.node, "render_edges")]
+            uncond = rcs and not [a for a in A.ancestors(rcs[0]) if isinstance(a, ast.If) and any(y is lp for y in A.ancestors(a))]
+            if rcs and uncond and edges and cfg.node_of(edges[0]) in cfg.reachable(cfg.node_of(lp)) and not any(any(a is lp for a in A.ancestors(e)) for e in edges):
+                good = True
+        if good:
+            out.append(ok("DISP-10", m.qualname, key, where, "render_block(self.g, name, block) for every top-level block, then render_edges"))
+        else:
+            out.append(bad("DISP-10", m.qualname, key, where, "the renderer does not draw every top-level block unconditionally and then the edges"))
+        init = c.methods.get("__init__")
+        key = f"{cname}: own fresh Digraph"
+        okg = False
+        if init is not None:
+            for s in A.walk_no_nested(init.node):
+                if isinstance(s, ast.Assign) and any(A.unparse(t) == "self.g" for t in s.targets) and isinstance(s.value, ast.Call) and (A.dotted(s.value.func) or "").endswith("Digraph"):
+                    sn = ctx.cfg(init).node_of(s)
+                    icfg = ctx.cfg(init)
+                    if icfg.exit not in icfg.reachable(icfg.entry, avoid=lambda z: z is sn):
+                        okg = True
+        if okg:
+            out.append(ok("DISP-10", c.name, key, ctx.where(init), "self.g = Digraph() on every path of __init__"))
+        else:
+            out.append(bad("DISP-10", c.name, key, ctx.where(init) if init else ctx.where(m), "the renderer does not create its own Digraph in __init__: rendering fails or draws into a shared graph"))
+    return out
